@@ -724,4 +724,33 @@ theorem accepted_bid2D_spends_the_ordinal (pstx tx : Tx) (prev : List UTXO) (bid
         · simp [Input.norm, Input.normStd, ht, hvout]
 
 
+
+/-- **A completed listing spends the listed ordinal**: whenever `AcceptOrdinalSaleListing` returns a transaction, its input 1
+    is the seller's input of the offer unchanged, and that input spends exactly the listed outpoint; output 1 is the
+    seller's output of the offer unchanged. -/
+theorem completed_listing_spends_the_listed_ordinal (pstx tx : Tx) (listed : UTXO) (utxos : List UTXO)
+    (buyer dummy chg : Bytes) (fq : FeeQuote) (h : acceptListing pstx listed utxos buyer dummy chg fq = .ok tx) :
+    ∃ sin sout, pstx.inputs = [sin] ∧ pstx.outputs = [sout] ∧ tx.inputs[1]? = some sin ∧ tx.outputs[1]? = some sout ∧
+      sin.prevTxID = listed.txid ∧ sin.vout = listed.vout := by
+  obtain ⟨sin, sout, u0, rest, hin, hout, _, hti, ⟨tail, hto⟩, _⟩ := acceptListing_layout pstx tx listed utxos buyer dummy chg fq h
+  obtain ⟨i, o, hi, ho, ht, hv⟩ := listing_gate_protects_outpoint pstx listed
+    (accept_listing_needs_valid_offer pstx tx listed utxos buyer dummy chg fq h)
+  have : i = sin := by rw [hin] at hi; simpa using hi.symm
+  subst this
+  exact ⟨i, sout, hin, hout, by simp [hti], by simp [hto], ht, hv⟩
+
+/-- the same for `AcceptOrdinalSaleListing2Dummies`: the seller's input and output sit at index 2 -/
+theorem completed_listing2D_spends_the_listed_ordinal (pstx tx : Tx) (listed : UTXO) (utxos : List UTXO)
+    (buyer dummy chg : Bytes) (fq : FeeQuote) (h : acceptListing2D pstx listed utxos buyer dummy chg fq = .ok tx) :
+    ∃ sin sout, pstx.inputs = [sin] ∧ pstx.outputs = [sout] ∧ tx.inputs[2]? = some sin ∧ tx.outputs[2]? = some sout ∧
+      sin.prevTxID = listed.txid ∧ sin.vout = listed.vout := by
+  obtain ⟨sin, sout, d0, d1, pay, hin, hout, _, _, hti, ⟨tail, hto⟩, _⟩ :=
+    acceptListing2D_layout pstx tx listed utxos buyer dummy chg fq h
+  obtain ⟨i, o, hi, ho, ht, hv⟩ := listing_gate_protects_outpoint pstx listed
+    (accept_listing2D_needs_valid_offer pstx tx listed utxos buyer dummy chg fq h)
+  have : i = sin := by rw [hin] at hi; simpa using hi.symm
+  subst this
+  exact ⟨i, sout, hin, hout, by simp [hti], by simp [hto], ht, hv⟩
+
+
 end GoBT.C20
